@@ -592,4 +592,20 @@ theorem cover_holdings_explicit {s : St} (hI : Inv s) (hP : PotInv s) (hB : Boos
   show claimableHoldings s + _ + _ ≤ _
   omega
 
+/-- principal backing in terms of what is outstanding: the contract's staking-token balance beyond
+    the capacity not yet accrued and the reserve = directly staked principal (supply − virtual
+    stake) + the outstanding unbond-token units -/
+theorem principal_explicit {s : St} (hI : Inv s) (hU : UnbInv s) :
+    (s.bal : Int) - ((s.capacity - s.accumulated : Nat) : Int) - s.reserve
+      = ((s.supply : Int) - s.virt) +
+        (((List.range (s.nonce + 1)).map fun n =>
+          match s.md n with
+          | some (.unbond _) => (s.accts.dedup.map fun a => s.hold a n).sum
+          | _ => 0).sum : Nat) := by
+  show _ = ((s.supply : Int) - s.virt) + ((unbondUnits s : Nat) : Int)
+  rw [← hU.explicit]
+  have h1 := hI.bal_eq
+  have h2 := hI.acc_le
+  omega
+
 end Mx.Staking
